@@ -73,17 +73,24 @@ def parseRunC? (j : Json) : Option (RunC Nat × Nat) := do
   let builds ← (← getArr? j "builds").toList.mapM asNat?
   pure ({ key := key, invocations := n, retries := retries, warmup := warmup, files := files, builds := builds }, bench)
 
-/-- harness table: per run a list indexed by invocation-1 of `null` (fails) or a list of data points -/
-def parseOutTable? (j : Json) : Option (List (List (Option (List (List Meas))))) := do
+/-- harness table: per run a list indexed by invocation-1 of `null` (nothing parsable, exit 1), a list of
+data points (exit 0), or `{"rc": n, "dps": [...]}` -/
+def parseOutTable? (j : Json) : Option (List (List (Option RawOut))) := do
   let a ← asArr? j
+  let parseDps := fun (o : Json) => do
+    let dps ← asArr? o
+    dps.toList.mapM (fun dp => do (← asArr? dp).toList.mapM parseMeas?)
   a.toList.mapM (fun perRun => do
     let invs ← asArr? perRun
     invs.toList.mapM (fun o =>
       if o.isNull then some none
-      else do
-        let dps ← asArr? o
-        let dps ← dps.toList.mapM (fun dp => do (← asArr? dp).toList.mapM parseMeas?)
-        pure (some dps)))
+      else match getInt? o "rc" with
+        | some rc => do
+            let dps ← parseDps (← getObj? o "dps")
+            pure (some { rc := rc, dps := dps })
+        | none => do
+            let dps ← parseDps o
+            pure (some { rc := 0, dps := dps })))
 
 def parseSched? (s : String) : Option Sched :=
   match s with
@@ -124,6 +131,9 @@ def parseScenario? (j : Json) : Option Scenario := do
   let contents ← match getArr? j "contents" with
     | some a => a.toList.mapM (fun f => do (← asArr? f).toList.mapM parseLine?)
     | none => some (List.replicate nfiles [])
+  let ign : List Bool := match getArr? j "ignoreTimeouts" with
+    | some a => a.toList.map (fun x => (asBool? x).getD false)
+    | none => []
   let colsTable : Option (List (List (List Char))) := do
     let a ← getArr? j "cols"
     a.toList.mapM (fun r => do (← asArr? r).toList.mapM (fun c => (asStr? c).map String.toList))
@@ -133,7 +143,8 @@ def parseScenario? (j : Json) : Option Scenario := do
     | some r => r.2
     | none => benches.getD k 0
   pure { colsOf := colsTable.map (fun t => fun k => t.getD k []), cfg := runs.map (·.1), benchOf := benchOf,
-         H := { out := fun r inv => ((outs.getD r []).getD (inv - 1) none), buildOk := fun b => buildOk.getD b true },
+         H := harnessOf ((getBool? j "faulty").getD false) (fun i => ign.getD i false)
+                (fun r inv => ((outs.getD r []).getD (inv - 1) none)) (fun b => buildOk.getD b true),
          specs := specs, rtK := tableFn rtK, rtB := tableFn rtB, contents := contents }
 
 /-- consecutive measurement lines as one text blob (what is on disk between two comment lines) -/
